@@ -284,3 +284,92 @@ pub fn run_e(ctx: &Ctx) -> u64 {
     });
     scripts.len() as u64
 }
+
+// Part (f): every way of asking `jobs` for a report has the same effect on the job list. "When the
+// built-in reports a finished job, it removes the job from the job list" (jobs.md) — whichever
+// format the report has. Differential, no model: every history of up to N commands over {start a
+// job that never ends, kill job 1 / 2 / 3, `jobs` (output discarded)} is run once with plain `jobs`
+// and once with each of `jobs -p`, `jobs -l`, `jobs --pgid-only`, `jobs --verbose`, `jobs -r`,
+// `jobs -s` … in its place; the job-list dumps after every command must be the same.
+
+const FOPS: [&str; 5] = ["hang &", "kill -s KILL %1", "kill -s KILL %2", "kill -s KILL %3", "JOBS >/dev/null"];
+
+fn dumps_with(hist: &[usize], jobs_cmd: &str) -> (Vec<String>, vsh::Run) {
+    let mut script = String::new();
+    for (k, op) in hist.iter().enumerate() {
+        script.push_str(&format!("{} 2>/dev/null\njl {k}\n", FOPS[*op].replace("JOBS", jobs_cmd)));
+    }
+    script.push_str("kill -s KILL %1 %2 %3 %4 2>/dev/null\ns 0\n");
+    let mut setup = Setup::script(&script);
+    setup.auto_continue = false;
+    let r = vsh::run_once(&setup, &Default::default());
+    // the dump without `$?` (a kill of a job that is gone fails in both runs alike, but keep it simple)
+    let d = r.all_trace().into_iter().filter(|t| t.starts_with("jl ")).collect();
+    (d, r)
+}
+
+/// Returns the number of runs.
+pub fn run_f(ctx: &Ctx) -> u64 {
+    let depth = ctx.tier.pick(5, 6);
+    let mut hists: Vec<Vec<usize>> = vec![];
+    let mut frontier: Vec<Vec<usize>> = vec![vec![]];
+    for _ in 0..depth {
+        let mut next = vec![];
+        for h in &frontier {
+            for op in 0..FOPS.len() {
+                if op == 0 && h.iter().filter(|o| **o == 0).count() >= 3 {
+                    continue;
+                }
+                let mut g = h.clone();
+                g.push(op);
+                next.push(g);
+            }
+        }
+        hists.extend(next.iter().cloned());
+        frontier = next;
+    }
+    // only histories in which `jobs` runs at least once and something follows or precedes it
+    let hists: Vec<Vec<usize>> = hists.into_iter().filter(|h| h.contains(&4) && h.contains(&0)).collect();
+    let n = AtomicU64::new(0);
+    hists.par_iter().for_each(|h| {
+        let _g = case_guard(format!("jobs variants {h:?}"));
+        let (reference, r0) = dumps_with(h, "jobs");
+        n.fetch_add(1, Relaxed);
+        if r0.panic.is_some() || matches!(r0.end, End::Deadlock | End::Livelock) {
+            ctx.violation("c12f:end", &format!("{:?} {:?}", r0.end, r0.panic), json!({"part": "f", "history": h, "jobs": "jobs"}));
+            return;
+        }
+        for variant in ["jobs -p", "jobs -l", "jobs --pgid-only", "jobs --verbose", "jobs --pgid"] {
+            let (d, r) = dumps_with(h, variant);
+            n.fetch_add(1, Relaxed);
+            if d != reference || r.panic.is_some() {
+                let k = d.iter().zip(reference.iter()).position(|(a, b)| a != b).unwrap_or(d.len().min(reference.len()));
+                ctx.violation(
+                    "c12f:report-format-changes-the-job-list",
+                    &format!(
+                        "history {:?}: with `{variant}` the job list after command {k} is {:?}, with plain `jobs` {:?}",
+                        h.iter().map(|o| FOPS[*o]).collect::<Vec<_>>(),
+                        d.get(k).map(|t| t.replace('\x1e', " | ").replace('\x1f', ",")),
+                        reference.get(k).map(|t| t.replace('\x1e', " | ").replace('\x1f', ","))
+                    ),
+                    json!({"part": "f", "history": h, "jobs": variant}),
+                );
+                return;
+            }
+        }
+    });
+    n.load(Relaxed)
+}
+
+pub fn replay_f(case: &serde_json::Value) -> bool {
+    let Some(h) = case["history"].as_array() else { return false };
+    let h: Vec<usize> = h.iter().map(|x| x.as_u64().unwrap() as usize).collect();
+    for cmd in ["jobs", case["jobs"].as_str().unwrap_or("jobs -p")] {
+        let (d, r) = dumps_with(&h, cmd);
+        println!("with `{cmd}`: end={:?}", r.end);
+        for t in d {
+            println!("  {}", t.replace('\x1e', " | ").replace('\x1f', ","));
+        }
+    }
+    true
+}
